@@ -42,6 +42,10 @@ def tasks(tier):
             out.append(dict(transport=tr, entry=entry, tier=tier))
     for tr in ('pty-select', 'pty-poll'):
         out.append(dict(transport=tr, entry='waitnoecho', tier=tier))
+    # a socket that carries its owner's own time limit (create_connection(timeout=...), settimeout): the call's
+    # timeout - None included - is what counts
+    for entry in ENTRIES:
+        out.append(dict(transport='socket', entry=entry, tier=tier, sock_own=0.2))
     return out
 
 
@@ -106,6 +110,8 @@ class Setup(object):
         else:
             from pexpect import socket_pexpect
             a, b = socket.socketpair()
+            if task.get('sock_own') is not None:
+                a.settimeout(task['sock_own'])
             self.sock = E.SocketProxy(a)
             self.peer = b
             env.sockets[id(a)] = a
@@ -277,7 +283,7 @@ def vkey(task, T, scen, sym):
         # one recorded defect: the liveness check in pty read_nonblocking's EOF handler is a
         # blocking waitpid (ptyprocess.isalive once EOF was flagged); keyed by call site + entry point
         return '%s:%s:hangup-while-child-alive:blocking-waitpid' % (task['transport'], task['entry'])
-    return '%s:%s:T=%s:%s:%s' % (task['transport'], task['entry'], tname(T), scen, sym)
+    return '%s%s:%s:T=%s:%s:%s' % (task['transport'], '+own-timeout' if task.get('sock_own') is not None else '', task['entry'], tname(T), scen, sym)
 
 
 def tname(T):
